@@ -63,7 +63,7 @@ fn special_slot(max_n: usize) -> Option<usize> {
         v
     });
     if n == 3 {
-        Some(crate::util::WORKER_IX.with(|w| w.get()) % 6)
+        Some(crate::util::WORKER_IX.with(|w| w.get()) % 7)
     } else {
         None
     }
@@ -113,6 +113,20 @@ pub fn gen_case(d: &mut Driver, rep: &mut Report, rng: &mut Rng, max_n: usize) -
             cfg.block_size = 4096;
             let es: Vec<(Vec<u8>, Vec<u8>)> = vec![(b"s0".to_vec(), rng.any_bytes(9)), (b"s1".to_vec(), rng.any_bytes(1_200_000)), (b"s2".to_vec(), rng.any_bytes(3))];
             rep.count("tables_with_a_snappy_block_over_1mib");
+            return build_case(d, rep, &cfg, &es);
+        }
+        // block sizes of 8 KiB / 16 KiB with several such blocks (anything derived from the block size, e.g. a filter
+        // base, must still agree with what the file records)
+        Some(6) => {
+            let mut cfg = gen_wcfg(rng);
+            cfg.snappy = false;
+            cfg.block_size = 8192;
+            cfg.pol = PolKind::Bloom(10);
+            let mut es: Vec<(Vec<u8>, Vec<u8>)> = (0..70).map(|i| (format!("w{:04}", i * 2).into_bytes(), rng.any_bytes(600 + (i * 37) % 300))).collect();
+            if cfg.cmp == CmpKind::Reverse {
+                es.reverse();
+            }
+            rep.count("tables_with_8k_16k_blocks");
             return build_case(d, rep, &cfg, &es);
         }
         // ONE data block beyond 64 KiB: restart offsets that do not fit 16 bits
